@@ -335,6 +335,20 @@ MUTATIONS = [
      'desc': 'revert of fix 740b955d: a span starting with a fused element after an amplifier is not padded',
      'edits': [('gnpy/core/network.py', "                    and isinstance(get_previous_node(first_fiber, network), (elements.Edfa, elements.Multiband_amplifier)):",
                 "                    and False:")]},
+    {'id': 'c14-revert-infeasible-fixed-slot-blocks', 'props': ['C14'], 'tests': 'tests/test_spectrum_assignment.py',
+     'desc': 'revert of fix e32f168a: an infeasible user-fixed slot is dropped when the other slots cover the demand',
+     'edits': [('gnpy/topology/spectrum_assignment.py', """                # cover the demand: these m slots could not be served)
+                remaining_slots_to_serve = max(remaining_slots_to_serve, m)
+""", """                # cover the demand: these m slots could not be served)
+""")]},
+    {'id': 'c19-revert-aggregation-compares-bidir', 'props': ['C19'], 'tests': 'tests/test_disjunction.py',
+     'desc': 'revert of fix b49fe0a8: bidirectional and unidirectional twins are aggregated',
+     'edits': [('gnpy/topology/request.py', "            req1.bidir == req2.bidir and \
+", "")]},
+    {'id': 'c18-revert-dispersion-list-converter', 'props': ['C18'], 'tests': 'tests/test_legacy_yang.py',
+     'desc': 'revert of fix 486edebe: per-frequency dispersion is not converted to the YANG list',
+     'edits': [('gnpy/tools/convert_legacy_yang.py', "        json_data = convert_dispersion_list(json_data)
+", "")]},
     {'id': 'c11-revert-explicit-ispart', 'props': ['C11'], 'tests': 'tests/test_path_computation_functions.py tests/test_disjunction.py',
      'desc': 'revert of fix e50d35fe: explicit route returned without checking the listed nodes are crossed in order',
      'edits': [('gnpy/topology/request.py', "    if total_path is not None and ispart(nodes_list, total_path):",
